@@ -761,6 +761,20 @@ pub fn generate(family: &str, seed: u64, count: usize, emit: &mut dyn FnMut(Stri
             for _ in 0..count {
                 let (text, ro) = random_text(&mut r);
                 let text = if text.len() > 40 { text[..40].to_vec() } else { text };
+                // numeric literals long enough that the scanner only skips their last digits: a read error
+                // there must surface like anywhere else
+                let text = if r.chance(1, 5) {
+                    let (n1, n2, n3) = (26 + r.below(8), 12 + r.below(8), 20 + r.below(6));
+                    let lit = match r.below(6) {
+                        0 => format!("0.{}", digits(&mut r, 10, n1)),
+                        1 => format!("{}.{}", digits(&mut r, 10, 22), digits(&mut r, 10, 6)),
+                        2 => format!("{}", digits(&mut r, 10, n1)),
+                        3 => format!("1e-{}", digits(&mut r, 10, n2)),
+                        4 => format!("0e{}", digits(&mut r, 10, n2)),
+                        _ => format!("#x{}", digits(&mut r, 16, n3)),
+                    };
+                    match r.below(3) { 0 => lit.into_bytes(), 1 => format!("({} a)", lit).into_bytes(), _ => format!("{} b", lit).into_bytes() }
+                } else { text };
                 let api = *r.pick(&["v1", "d1", "r:v:20", "r:i:20"]);
                 emit(parse_op("b", &ro, api, &text));
                 for k in 0..=text.len() {
@@ -1041,6 +1055,13 @@ pub fn generate(family: &str, seed: u64, count: usize, emit: &mut dyn FnMut(Stri
                         emit(parse_op("b", ro, api, format!("#({})", flat).as_bytes()));
                     }
                     if n == 129 || n == 200 {
+                        // ... and one nested exactly 100 levels, which C03 promises is accepted
+                        let nest100 = format!("{}x{}", "(".repeat(100), ")".repeat(100));
+                        for api in ["v", "d", "i", "j", "p"] {
+                            for k in [30usize, n] {
+                                emit(parse_op("b", ro, &format!("r:{}:{}", api, k + 3), format!("{}{}", format!("{} ", sib).repeat(k), nest100).as_bytes()));
+                            }
+                        }
                         let nest = format!("{}x{}", "(".repeat(126), ")".repeat(126));
                         for api in ["v", "d", "i", "j", "p"] {
                             // the siblings, then a value nested to just below the limit, on one parser
@@ -1060,6 +1081,8 @@ pub fn generate(family: &str, seed: u64, count: usize, emit: &mut dyn FnMut(Stri
         }
         #[cfg(feature = "full")]
         "serde" | "deser" => crate::serde_ops::generate(family, &mut r, count, emit),
+        // hand-written Clone / PartialEq / Drop of Cons and SpanInfo, mutators, iterator accessors (cons_ops.rs)
+        "consops" => crate::cons_ops::generate(&mut r, count, emit),
         _ => panic!("unknown family {}", family),
     }
 }
@@ -1107,6 +1130,8 @@ pub const TOKEN_CORPUS: &[&str] = &[
     ".a", ".a:", "...", "'a", "`a", ",a", ",@a", "'nil", "'t", "#t", "#f", "#nil", "\"s\"", "#\\a", "(a)", "[a]", "[a b]", "()", "[]", "#(a)", "nil.t", "a.b",
     "1e", "1.", "-.5", "+.a", "12:", "1e3:", "a::", "x:y", "#x1F", "#b2",
     "+.a:", "-.foo:", "+..:", "-.:", "-a:", "...:", "..a:", "+:", "-:", "1#t", "#x1F#t", "-5#t", "1.5#f", "1|", "a#t", "+.5:", "-.5a", ".5:", "#t:", "'a:", "?a:", "#\\a:",
+    // shorthands directly after one another, in every order; number prefixes running into bytes that end a number but not a symbol
+    "'`a", "`'a", ",'a", "',a", ",@'a", "',@a", "`,@a", "`,a", "''a", ",,a", "'`,a", ",@`'a", "12|x", "3\"a\"", "12|x:", "1e3\"s\"", "-7|", "+1.5|a", "#x1F|", "1.5e3|x",
 ];
 
 pub const POSITIONS: &[&str] = &["@", "(@ x)", "(x @)", "(x . @)", "#(@)", "#(x @)", "[@]", "[x @]", "(@)", "(x @ y)", " @ ", "@;c", "'@", "(x . @ )", "[x . @]", "@\n", "@\x0c", "@\"s\"", "@|"];
@@ -1124,6 +1149,8 @@ pub fn value_basis() -> Vec<Value> {
         Value::Char('λ'), Value::Char('\u{10ffff}'), Value::Char('\\'), Value::Char('.'), Value::Char(';'), Value::Char('"'), Value::Char('#'), Value::Char('\u{7f}'), Value::Char('x'),
         Value::string(""), Value::string("a\"b\\c\n\t\r\u{7}\u{8}\u{1}\u{7f}λ😀"), Value::string("\u{0}\u{1f}"), Value::symbol("a"), Value::symbol("+"), Value::symbol("-"), Value::symbol("..."),
         Value::symbol("λx"), Value::symbol("foo-bar"), Value::symbol("+.x"), Value::keyword("kw"), Value::keyword("λ"), Value::keyword("$x"), Value::keyword("+"),
+        // keywords whose names are the reserved words: every keyword spelling is recognised before the nil/t rule
+        Value::keyword("nil"), Value::keyword("t"), Value::keyword("nile"), Value::symbol("nil"), Value::symbol("t"),
         Value::bytes(vec![]), Value::bytes(vec![0u8, 1, 127, 128, 255]), Value::bytes(vec![65u8]),
     ];
     let atoms = v.clone();
@@ -1249,7 +1276,20 @@ fn digits(r: &mut Rng, radix: u32, n: usize) -> String {
 
 pub fn gen_num_literal(r: &mut Rng) -> String {
     let sign = *r.pick(&["", "", "-", "+"]);
-    match r.below(13) {
+    match r.below(14) {
+        13 => {
+            // a long run of zeros compensated by a large written exponent: the value is moderate although the
+            // exponent has four digits (or the significand hundreds of digits)
+            let n = *r.pick(&[90usize, 99, 100, 101, 300, 330, 700, 999, 1000, 1001, 1100, 1200, 1300]);
+            let k = r.below(40) as i64 - 20;
+            let nd = 1 + r.below(5);
+            let d = digits(r, 10, nd);
+            if r.chance(1, 2) {
+                format!("{}{}{}{}{}", sign, d.trim_start_matches('0').to_string() + "1", "0".repeat(n), r.pick(&["e-", "E-"]), n as i64 + k)
+            } else {
+                format!("{}0.{}{}1{}{}", sign, "0".repeat(n), d, r.pick(&["e", "e+", "E"]), (n as i64 + k).max(0))
+            }
+        }
         12 => {
             // exponents at the edge of i32 combined with mantissas that carry an exponent of their own
             let a = *r.pick(&[1usize, 1, 2, 19, 20, 21, 25, 40]);
